@@ -127,9 +127,17 @@ where
             }
         }
         vars.sort_by(|a, b| a.0.cmp(&b.0));
+        // A variable repeated inside a term (e.g. "x^2x") is one factor: x^2 * x = x^3
+        let mut merged: Vec<(String, f64)> = Vec::with_capacity(vars.len());
+        for (var, power) in vars.iter() {
+            match merged.last_mut() {
+                Some(last) if last.0 == *var => last.1 += *power,
+                _ => merged.push((var.clone(), *power)),
+            }
+        }
         parsed.push(Term {
             coefficient: coeff,
-            variables: vars.clone(),
+            variables: merged,
         });
     }
     let unique_variables: HashSet<String> = parsed
